@@ -1114,7 +1114,7 @@ func replayHistory(raw json.RawMessage) (bool, string) {
 // (tsdb.Store.WriteToShard – the call coordinator.PointsWriter makes per shard – → epochTracker.StartWrite / guard.Matches /
 // guard.Wait → Shard.WritePoints → index + cache + WAL) on the real `mini` stack inside a synctest bubble. Every file of
 // tsdb, tsm1 and tsi1 that uses sync / sync/atomic is compiled against the modelled primitives (shim.json); the vsched
-// engine executes EVERY schedule with ≤ B deviations from the default schedule, branching at the synchronisation
+// engine executes EVERY schedule with ≤ B preemptions (a switch when the running thread blocks or ends is free), branching at the synchronisation
 // operations of Store, epochTracker, guard, Shard, tsm1.Engine and tsm1.Cache.
 var level = "model_checking"
 
@@ -1772,7 +1772,7 @@ var assumptions = []string{
 	"a series returned by a read with an EMPTY cursor is not judged (C21); order and duplicates of listings are not judged (C42): listings are compared as sets",
 	"metadata queries restricted to one shard group's time range: only data ⇒ listed is demanded; a name whose data lives only in the other shard may or may not be listed",
 	"a write 'does not conflict' with a delete iff its point is outside the delete's time range or its series does not match the delete's predicate",
-	"part 2: sequentially consistent interleavings at the granularity of the modelled mutex/atomic operations; branching only at Store/epochTracker/guard/Shard/Engine/Cache operations (size/idle bookkeeping atomics and all other locks are passed silently when free); the writer enters at tsdb.Store.WriteToShard (what coordinator.PointsWriter calls per shard), not through the PointsWriter's goroutine + timeout timer",
+	"part 2: sequentially consistent interleavings at the granularity of the modelled mutex/atomic operations; branching only at Store/epochTracker/guard/Shard/Engine/Cache operations (the pure loads of IsIdle / Cache.Size / Cache.init and all other locks are passed silently when free); the writer enters at tsdb.Store.WriteToShard (what coordinator.PointsWriter calls per shard), not through the PointsWriter's goroutine + timeout timer",
 	"background compactions/retention are off (mini fixture); the level-compaction goroutine that DeleteSeriesRange starts has nothing to do with < 4 TSM files per shard",
 }
 
